@@ -546,6 +546,8 @@ def _b_cast_identity(ex, st, args, kwargs, node, spec):
 
 
 def _b_defaultdict(ex, st, args, kwargs, node, spec):
+    if len(args) == 2 and isinstance(args[0], ClsV) and args[0].name == "int" and isinstance(args[1], MapV):
+        return args[1]          # defaultdict(int, counts): the same total map (absent = 0)
     if args and isinstance(args[0], ClsV) and args[0].name == "int":
         return MapV(z3.K(I, z3.IntVal(0)))
     raise Unsupported("defaultdict of non-int")
@@ -560,7 +562,18 @@ def _b_slice(ex, st, args, kwargs, node, spec):
     return ObjV("__slice__", {"lo": a[0], "hi": a[1]})
 
 
+def _b_counter(ex, st, args, kwargs, node, spec):
+    """collections.Counter(counts) in the total-map view (absent = 0); Counter + Counter is the point-wise sum for
+    non-negative counts (entries that sum to zero are dropped, which reads as 0 again)."""
+    if len(args) == 1 and isinstance(args[0], Opt):
+        args = [ex.need_not_none(args[0], st, node, "Counter()")]
+    if len(args) == 1 and isinstance(args[0], MapV):
+        return args[0]
+    raise Unsupported("Counter of something that is not a map of counts")
+
+
 BUILTINS = {
+    "Counter": _b_counter, "collections.Counter": _b_counter,
     "slice": _b_slice,
     "defaultdict": _b_defaultdict, "collections.defaultdict": _b_defaultdict,
     "len": _b_len, "min": _minmax(True), "max": _minmax(False), "abs": _b_abs, "int": _b_int, "float": _b_float,
